@@ -268,6 +268,11 @@ fn expand_type(ty: &ForeignItemType) -> Result<TokenStream2> {
                 #into_js
             }
         }
+        impl ::wasm_bindgen::convert::IntoJs for #name {
+            fn into_js(self) -> ::wasm_bindgen::JsValue {
+                ::core::convert::Into::into(self)
+            }
+        }
         impl ::wasm_bindgen::JsCast for #name {
             fn instanceof(_val: &::wasm_bindgen::JsValue) -> bool {
                 // No JS class to check against natively.
